@@ -262,3 +262,15 @@ func (p *Program) TypeStr(t types.Type) string {
 func (p *Program) ExprStr(e ast.Expr) string {
 	return types.ExprString(e)
 }
+
+// SrcFuncs returns the SSA functions of every declared function and method
+// of the package, in a stable order.
+func (p *Program) SrcFuncs() []*ssa.Function {
+	var out []*ssa.Function
+	for _, f := range p.SortedFuncs() {
+		if sf := p.SSAFunc(f); sf != nil && len(sf.Blocks) > 0 {
+			out = append(out, sf)
+		}
+	}
+	return out
+}
